@@ -75,10 +75,10 @@ func Run(ctx *core.Ctx) {
 
 	// (c) free-running stress and (b) sampled schedules need nothing from TLC
 	bg(func() {
-		collect(runChild(ctx, &ChildInput{Phase: "stress", Seed: ctx.Seed, G: 16, R: 200, StressBundles: ctx.Pick(16, 120)}))
+		collect(runChild(ctx, &ChildInput{Phase: "stress", Seed: ctx.Seed, G: 16, R: 200, StressBundles: ctx.Pick(16, 300)}))
 	})
 	bg(func() {
-		collect(runChild(ctx, &ChildInput{Phase: "forced", Seed: ctx.Seed, RandBundles: ctx.Pick(60, 600), RandPerGroup: ctx.Pick(12, 20)}))
+		collect(runChild(ctx, &ChildInput{Phase: "forced", Seed: ctx.Seed, RandBundles: ctx.Pick(60, 1200), RandPerGroup: ctx.Pick(12, 20)}))
 	})
 
 	// M1 deviations: the invariants are not vacuous
